@@ -161,11 +161,27 @@ def fmt_atom(a) -> str:
             return fmt_atom(a[1]) + "[" + (fmt_atom(a[2]) if isinstance(a[2], tuple) else repr(a[2])) + "]"
         if a[0] in ("min", "max"):
             return a[0] + "(" + ", ".join(sorted(fmt_key(k) for k in a[1])) + ")"
-        return a[0] + "(" + ", ".join(fmt_key(x) if isinstance(x, tuple) else repr(x) for x in a[1:]) + ")"
-    return repr(a)
+        return a[0] + "(" + ", ".join(fmt_key(x) if isinstance(x, (tuple, frozenset, set, list, dict)) else repr(x) for x in a[1:]) + ")"
+    return srepr(a)
+
+
+def srepr(x) -> str:
+    """repr with a deterministic rendering of (frozen)sets at any depth: two equal terms always print the same text,
+    whatever the insertion history or the hash seed (terms are compared through their text in several places)."""
+    if isinstance(x, tuple):
+        return "(" + ", ".join(srepr(e) for e in x) + ("," if len(x) == 1 else "") + ")"
+    if isinstance(x, (frozenset, set)):
+        return "{" + ", ".join(sorted(srepr(e) for e in x)) + "}"
+    if isinstance(x, list):
+        return "[" + ", ".join(srepr(e) for e in x) + "]"
+    if isinstance(x, dict):
+        return "{" + ", ".join(sorted(srepr(k) + ": " + srepr(v) for k, v in x.items())) + "}"
+    return repr(x)
 
 
 def fmt_key(k) -> str:
+    if isinstance(k, (frozenset, set, list, dict)):
+        return srepr(k)
     if isinstance(k, tuple) and len(k) == 3 and k[0] == "rat":
         return _fmt_polykey(k[1]) + ("" if k[2] == ((((), Fraction(1))),) or k[2] == (((), Fraction(1)),) else " / (" + _fmt_polykey(k[2]) + ")")
     if isinstance(k, tuple):
